@@ -253,7 +253,9 @@ func checkRandomMap(r *Reporter, p *Prog) {
 		//  (b) the slot at the deleted entry's index receives the last key,
 		//  (c) the key slice is cut by one, (d) the map entry is deleted.
 		info := p.Pkg(pkg).TypesInfo
-		lastKey := func(k string) bool { return strings.HasSuffix(k, ".keys[(len(") == false && strings.Contains(k, ".keys[(len(") && strings.Contains(k, ".keys)-1)]") }
+		lastKey := func(k string) bool {
+			return strings.HasSuffix(k, ".keys[(len(") == false && strings.Contains(k, ".keys[(len(") && strings.Contains(k, ".keys)-1)]")
+		}
 		var okA, okB, okC, okD bool
 		var seen []string
 		for _, b := range f.G.Blocks {
